@@ -25,11 +25,15 @@ fn deserialize_env(s: &str) -> Result<HashMap<String, String>, String> {
 }
 
 fn serialize_env(env: &HashMap<String, String>) -> String {
-    let mut s = String::new();
-    for (key, value) in env {
-        s.push_str(&format!("{}={}\n", key, value));
-    }
-    s
+    // One "KEY=VALUE" per line, without a line end after the last one (a value that ends in a
+    // line end makes the printed field end in an empty line, which ends the paragraph), in a
+    // fixed order (the iteration order of a HashMap differs from one instance to the next).
+    let mut lines = env
+        .iter()
+        .map(|(key, value)| format!("{}={}", key, value))
+        .collect::<Vec<_>>();
+    lines.sort();
+    lines.join("\n")
 }
 
 fn deserialize_version(s: &str) -> Result<debversion::Version, String> {
